@@ -3,6 +3,7 @@
 From Coq Require Extraction ExtrOcamlBasic.
 From VBase Require Import MachInt.
 From VGen Require Import F64 F62 F128.
+From VModel Require Import FieldBytes.
 Extraction Language OCaml.
 Separate Extraction
   f64_new f64_as_int f64_add f64_sub f64_mul f64_neg f64_double f64_mul_small f64_exp f64_inv f64_div
@@ -11,4 +12,7 @@ Separate Extraction
   f62_new f62_as_int f62_add f62_sub f62_mul f62_neg f62_double f62_exp f62_inv f62_div f62_eq
   f62_try_from_u64 f62_try_from_u128 f62_add_ok f62_sub_ok f62_mul_ok f62_neg_ok f62_double_ok f62_new_ok f62_as_int_ok
   f128_new f128_as_int f128_add f128_sub f128_mul f128_neg f128_exp f128_inv f128_div f128_try_from_u128
-  f128_add_ok f128_sub_ok f128_mul_ok f128_neg_ok.
+  f128_add_ok f128_sub_ok f128_mul_ok f128_neg_ok
+  f62_exp_vartime f64_get_root_of_unity f64_get_root_of_unity_ok f62_get_root_of_unity f62_get_root_of_unity_ok
+  f128_get_root_of_unity f128_get_root_of_unity_ok
+  f64_from_bytes_with_padding f62_from_bytes_with_padding f128_from_bytes_with_padding.
